@@ -48,6 +48,28 @@ def GF.data (f : GF α) : List α := f.base.map (fun x => mul x f.factor)
 /-- `event_count` = `numpy.sum(self.data)` -/
 def GF.eventCount (f : GF α) : α := RealOps.sum f.data
 
+/-! `GriddedForecast.scale_to_test_date(test_datetime)` (forecasts.py:257-283) is the second public way to set the factor:
+    outside the open interval (start_time, end_time) it returns the forecast UNCHANGED (the previous factor stays), inside
+    it calls `self.scale(fore_frac)`; `frac` = the fraction the code computes from decimal years (C11 / C15's subject) -/
+inductive ScaleOp (α : Type) where
+  | set (v : α)
+  | toDate (inside : Bool) (frac : α)
+
+def GF.apply (f : GF α) : ScaleOp α → GF α
+  | .set v => f.scale v
+  | .toDate true frac => f.scale frac
+  | .toDate false _ => f
+
+/-- any history of `scale` / `scale_to_test_date` calls on one object -/
+def GF.applyAll (f : GF α) (ops : List (ScaleOp α)) : GF α := ops.foldl GF.apply f
+
+/-- the factors that took effect, in order -/
+def effective : List (ScaleOp α) → List α
+  | [] => []
+  | .set v :: ops => v :: effective ops
+  | .toDate true frac :: ops => frac :: effective ops
+  | .toDate false _ :: ops => effective ops
+
 /-- poisson_evaluations.number_test: `events` are the rows of the observed catalog, of any content -/
 def numberTestPub [FloorOps α] {ε : Type} (f : GF α) (events : List ε) : α × α :=
   delta12 f.eventCount events.length epsCode
@@ -103,6 +125,26 @@ def catalogNTestPub {ε : Type} (catalogs : List (List ε)) (obs : List ε) :
     Option (Nat × Nat) × Option (Nat × Nat) :=
   catalogNTest (catalogs.map List.length) obs.length
 
+/-! ### the ANNOUNCED number of catalogs (constructor keyword `n_cat`, forecasts.py:563) is not what the N-test counts -/
+
+/-- a catalog forecast with the number of catalogs it was told to hold -/
+structure CFA (ε : Type) where
+  cf : CF ε
+  announced : Option Nat
+
+/-- one full pass: the catalogs the source delivers; at the end of a pass over a generator / loader source the forecast
+    corrects `n_cat` to the number it has seen (forecasts.py:614 `self.n_cat = self._idx`) -/
+def CFA.pass {ε : Type} (keep : ε → Bool) (f : CFA ε) : List (List ε) × CFA ε :=
+  let p := f.cf.pass keep
+  (p.1, ⟨p.2, some p.1.length⟩)
+
+/-- catalog_evaluations.number_test on such a forecast: `event_counts` holds one entry per catalog DELIVERED by the pass
+    (catalog_evaluations.py:40-48 appends inside the loop; `forecast.n_cat` is not read) -/
+def catalogNTestCFA {ε : Type} (keep : ε → Bool) (f : CFA ε) (obs : List ε) :
+    (Option (Nat × Nat) × Option (Nat × Nat)) × CFA ε :=
+  let p := f.pass keep
+  (catalogNTest (p.1.map List.length) obs.length, p.2)
+
 /-! ### the float64 arguments of the floor -/
 
 /-- the double `1e-6` -/
@@ -112,5 +154,19 @@ def epsF : Rat := Soft64.fl64 (1 / 1000000)
     (−1 = below the support, cdf = 0) -/
 def shiftF (n : Nat) : Int × Int :=
   ((Soft64.fsub (n : Rat) epsF).floor, (Soft64.fadd (n : Rat) epsF).floor)
+
+/-- the same two float64 operations for an arbitrary `epsilon` argument of the array-level helpers
+    (`_number_test_ndarray(fore_cnt, obs_cnt, epsilon=...)`, `_nbd_number_test_ndarray(..., epsilon=...)`) -/
+def shiftFE (eps : Rat) (n : Nat) : Int × Int :=
+  ((Soft64.fsub (n : Rat) eps).floor, (Soft64.fadd (n : Rat) eps).floor)
+
+/-! ### the NBD probability parameter in float64 (binomial_evaluations.py:24) -/
+
+/-- `upsilon = 1.0 - ((var - mean) / var)`: three float64 operations, in the order of the code -/
+def upsilonF (mean var : Rat) : Rat := Soft64.fsub 1 (Soft64.fdiv (Soft64.fsub var mean) var)
+
+/-- the algebraically equal `mean / var` (one operation, no cancellation) -- NOT what the code computes; used to state
+    what the cancellation costs -/
+def upsilonDirectF (mean var : Rat) : Rat := Soft64.fdiv mean var
 
 end NumberTest
